@@ -44,18 +44,39 @@ class Monitor(object):
                 self.running[(y, g)] = [r for r in t[i50:] if r[1] and r[1] > 0]
         self.mono = Mono(self.on_break)
         self.cache = {}
+        self.rows_fed = set()
 
     def year_of(self, kwargs, args, pos):
         y = kwargs.get('year', args[pos] if len(args) > pos else None)
         return 2015 if y == 2015 else 2023
 
     def bracket(self, y, g, d_km):
+        """nearest shorter / longer tabulated running rows.  A row's distance is known twice: the table's own distance
+        column and the distance its event code denotes (get_distance: '50M' is 50 miles whatever the column says).  Both
+        readings are bracketed and the envelopes united, so the 1609 vs 1609.344 m mile is not imposed either way, while a
+        corrupted distance cell still leaves the true neighbours in the envelope."""
         rows = self.running[(y, g)]
-        below = [r for r in rows if r[1] <= d_km]
-        above = [r for r in rows if r[1] >= d_km]
-        S = [r for r in below if r[1] == max(x[1] for x in below)] if below else []
-        L = [r for r in above if r[1] == min(x[1] for x in above)] if above else []
+        S, L = [], []
+        for dist in (lambda r: r[1], lambda r: self.code_km(r)):
+            below = [r for r in rows if dist(r) <= d_km]
+            above = [r for r in rows if dist(r) >= d_km]
+            if below:
+                m = max(dist(x) for x in below)
+                S += [r for r in below if dist(r) == m and r not in S]
+            if above:
+                m = min(dist(x) for x in above)
+                L += [r for r in above if dist(r) == m and r not in L]
         return S, L
+
+    def code_km(self, r):
+        k = ('ckm', r[0])
+        if k not in self.cache:
+            try:
+                d = self.get_distance(r[0])
+            except Exception:
+                d = None
+            self.cache[k] = 0.001 * d if d else r[1]
+        return self.cache[k]
 
     def row_factor(self, y, g, age, code):
         k = (y, g, age, code)
@@ -166,6 +187,10 @@ class Monitor(object):
             ctx.violation('best:not-finite-positive:%s' % (end or 'inside-table'), case, 'finite positive', repr(b))
             return
         self.mono_case = case
+        if (y, g) not in self.rows_fed:
+            self.rows_fed.add((y, g))
+            for r in self.running[(y, g)]:
+                self.mono.add((y, g), self.code_km(r) * 1000.0, r[2])
         self.mono.add((y, g), d_m, b)
         if end:
             rows = self.running[(y, g)]
@@ -195,6 +220,8 @@ class Monitor(object):
         # lo: shorter distance with the larger best
         if lo[1] - hi[1] <= 1e-9 * lo[1]:
             return
+        if abs(hi[0] - lo[0]) <= 0.0005 * hi[0]:
+            return          # within the 1609 / 1609.344 m-per-mile ambiguity of a tabulated row's position
         y, g = key
         S, L = self.bracket(y, g, 0.001 * hi[0])
         self.ctx.violation('best:decreases-with-distance:%s' % (self.where(S, L, hi[0]) or 'inside-table'),
